@@ -135,3 +135,59 @@ M("M_C06_e", ["C06"], "cotengra/core.py",
   "            else:\n                # size is 1 and i doesn't change\n                key[ind] = info.project",
   "            else:\n                # size is 1 and i doesn't change\n                key[ind] = info.project if info.inner else 0",
   "projected output index always reported as value 0", ["tests/test_tree.py"])
+
+# ------------------------------- C07 --------------------------------------
+M("M_C07_a", ["C07"], "cotengra/slicer.py",
+  "                cost._sizes.discard(old_size)\n                cost._sizes.add(new_size)",
+  "                cost._sizes.discard(old_size)\n                cost._sizes.add(new_size if len(cost._where) % 7 else old_size)",
+  "ContractionCosts.remove sometimes keeps the old size in its max tracker", ["tests/test_slicer.py"])
+M("M_C07_b", ["C07"], "cotengra/slicer.py",
+  "            if ix in self.forbidden:\n                raise RuntimeError",
+  "            if ix in self.forbidden and temperature == 0:\n                raise RuntimeError",
+  "forbidden indices only refused at zero temperature", ["tests/test_slicer.py"])
+M("M_C07_c", ["C07"], "cotengra/slicer.py",
+  "                (not size_specified or (x[1].size <= target_size))\n                and (",
+  "                (not size_specified or (x[1].size <= 2 * target_size))\n                and (",
+  "best() accepts slicings twice as large as the target size", ["tests/test_slicer.py"])
+M("M_C07_d", ["C07"], "cotengra/slicer.py",
+  "        return self.nslices * self.flops",
+  "        return self.nslices * self.flops if self.nslices < 64 else 64 * self.flops",
+  "predicted total flops saturates at 64 slices", ["tests/test_slicer.py"])
+M("M_C07_e", ["C07"], "cotengra/slicer.py",
+  "            if overhead_specified and (next_cost.overhead > target_overhead):\n                break",
+  "            if overhead_specified and (next_cost.overhead > target_overhead):\n                break\n            pass",
+  "harmless no-op", ["tests/test_slicer.py"], harmless=True)
+M("M_C07_f", ["C07"], "cotengra/slicer.py",
+  "        if allow_outer == \"only\":",
+  "        if allow_outer == \"only\" and len(self.forbidden) > 1:",
+  "allow_outer='only' not enforced when there is a single output index", ["tests/test_slicer.py"])
+
+# ------------------------------- C08 --------------------------------------
+M("M_C08_a", ["C08"], "cotengra/hyperoptimizers/hyper.py",
+  "                if future.done():\n                    del self._futures[i]",
+  "                if future.done():\n                    del self._futures[0]",
+  "polling removes the first future instead of the finished one (only visible when completion order != submission order)", ["tests/test_optimizers.py"])
+M("M_C08_b", ["C08"], "cotengra/hyperoptimizers/hyper.py",
+  "        tree.slice_(**self.opts)\n        trial.update(tree.contract_stats())",
+  "        tree.slice_(**self.opts)",
+  "sliced trial keeps the unsliced cost figures", ["tests/test_optimizers.py"])
+M("M_C08_c", ["C08"], "cotengra/hyperoptimizers/hyper.py",
+  "                setting, future = self._futures[i]\n                if future.done():",
+  "                setting, future = self._futures[i]\n                setting = self._futures[0][0]\n                if future.done():",
+  "result reported with the setting of the oldest outstanding trial", ["tests/test_optimizers.py"])
+M("M_C08_d", ["C08"], "cotengra/hyperoptimizers/hyper.py",
+  "        r_stop = r_start + self.max_repeats\n",
+  "        r_stop = r_start + self.max_repeats + (1 if self._pool is not None else 0)\n",
+  "one trial too many when running on a pool", ["tests/test_optimizers.py"])
+M("M_C08_e", ["C08"], "cotengra/hyperoptimizers/hyper.py",
+  "        tree.simulated_anneal_(**self.opts)\n        trial.update(tree.contract_stats())",
+  "        tree.simulated_anneal_(**self.opts)\n        trial.update(tree.contract_stats() if not tree.sliced_inds else {})",
+  "annealing trial with slicing keeps the pre-annealing figures", ["tests/test_optimizers.py"])
+M("M_C08_f", ["C08"], "cotengra/hyperoptimizers/hyper.py",
+  "            if trial[\"score\"] < self.best[\"score\"]:\n                self.trials_since_best = 0",
+  "            if trial[\"score\"] < self.best[\"score\"] or (self.trials_since_best > 5 and \"tree\" in trial):\n                self.trials_since_best = 0",
+  "after 5 non-improving trials the next successful trial replaces the best", ["tests/test_optimizers.py"])
+M("M_C08_g", ["C08"], "cotengra/scoring.py",
+  "        ensure_basic_quantities_are_computed(trial)\n        tree = trial[\"tree\"]\n        return math.log2(tree.combo_cost(factor=self.factor, combine=max))",
+  "        tree = trial[\"tree\"]\n        return math.log2(tree.combo_cost(factor=self.factor, combine=max))",
+  "revert of the limit-objective fix", ["tests/test_optimizers.py"])
